@@ -36,7 +36,16 @@ type Op struct {
 	Route string `json:"route,omitempty"`
 	Store string `json:"store,omitempty"` // syntax of the store statement inside that code (formOrder): "" | "dyn" | "expr" | "each"
 	Agent int    `json:"agent,omitempty"` // pour / relay / clos: the live instance whose method performs the write
-	Val   string `json:"val,omitempty"`   // value kind
+	// Site (on `new` ops): the instantiation is written once, inside a function `mk_j()`, and every `new` op of the
+	// history with the same text calls that function — ONE syntactic `new G<…>` site executed several times.
+	Site bool `json:"site,omitempty"`
+	// Att: an instantiation attempt that leaves no live instance, at a shared site (site histories only):
+	//   "boom"  mk_j("boom"): the same site as `new G<Args>`, the constructor throws;
+	//   "under" `new Pair<A>()`: one type argument too few — may be refused (origami: caught Go panic); if an object
+	//           comes back, its member k is bound to A and is probed with every value kind;
+	//   "over"  `new Box<A,B>()`: one too many — same, member v bound to A.
+	Att string `json:"att,omitempty"`
+	Val string `json:"val,omitempty"` // value kind
 }
 
 // Write routes, simplest first (the reducer prefers a smaller rank).
@@ -110,10 +119,34 @@ func visOf(seq []Op) string {
 	return ""
 }
 
+// siteMode: the history's instantiations go through shared `new` sites.
+func siteMode(seq []Op) bool {
+	for _, o := range seq {
+		if o.Site || o.Att != "" {
+			return true
+		}
+	}
+	return false
+}
+
+// attKinds: the value kinds an under-/over-applied object is probed with.
+var attKinds = []string{"int", "string", "array", "U"}
+
+// siteText identifies a site: ops with equal text share one function.
+func siteText(o Op) string {
+	if o.Att == "under" || o.Att == "over" {
+		return "att " + o.G + "<" + strings.Join(o.Args, ",") + ">"
+	}
+	return "new " + o.Raw + o.G + "<" + strings.Join(o.Args, ",") + ">"
+}
+
 // extended: the history uses a route beyond prop/meth or a non-public variant, so the class declarations need
 // the extra methods (histories of the older plans keep exactly their old script).
 func extended(seq []Op) bool {
 	for _, o := range seq {
+		if o.Site || o.Att != "" {
+			return true
+		}
 		if o.New && o.Vis != "" {
 			return true
 		}
@@ -127,6 +160,9 @@ func extended(seq []Op) bool {
 func (o Op) String() string {
 	if o.New {
 		vp := visPrefix(o.Vis)
+		if o.Site {
+			vp = "site " + vp // reads "new site Box<int>"
+		}
 		switch o.Raw {
 		case "raw":
 			return "new " + vp + o.G + "()"
@@ -144,6 +180,12 @@ func (o Op) String() string {
 			return "new " + outer + "->take(new " + inner + ")"
 		}
 		return "new " + outer
+	}
+	switch o.Att {
+	case "boom":
+		return "failed site new " + visPrefix(o.Vis) + o.G + "<" + strings.Join(o.Args, ",") + ">(boom)"
+	case "under", "over":
+		return "attempt site new " + visPrefix(o.Vis) + o.G + "<" + strings.Join(o.Args, ",") + ">"
 	}
 	name := methName(o.Route, o.Store, o.Member)
 	switch o.Route {
@@ -220,6 +262,7 @@ type alpha struct {
 	Nested   bool     // also nested instantiations (ctor / short / chain forms) with every inner G2<Args2>
 	Raw      bool     // also `new G()` without type arguments and `new AnyG()` (class AnyG extends G {})
 	Vis      string   `json:",omitempty"` // visibility variant of the generic classes ("" public | "prot" | "priv")
+	Sites    bool     `json:",omitempty"` // every `new` text is one shared site (function) + failing attempts at shared sites
 	Stores   []string `json:",omitempty"` // store forms (formOrder); empty = the plain form only
 }
 
@@ -396,17 +439,21 @@ func methodDecls(ns []need, tparam map[string]string) string {
 
 // preludeFor declares the classes of one visibility variant. ext=false is the original text (public members,
 // plain set_ methods only); ext=true adds getters and exactly the method bodies the history calls.
-func (c concr) preludeFor(vis string, ext bool, ns []need) string {
+func (c concr) preludeFor(vis string, ext bool, ns []need, site ...bool) string {
 	var sb strings.Builder
+	ctor := "public function __construct($inner = null) { $this->inner = $inner; }"
+	if len(site) > 0 && site[0] {
+		ctor = "public function __construct($inner = null) { if ($inner === \"boom\") { throw new Exception(\"boom\"); } $this->inner = $inner; }"
+	}
 	fmt.Fprintf(&sb, "class %s { public $n = 1; }\n", c.u)
 	fmt.Fprintf(&sb, "class %s { public $n = 2; }\n", c.w)
 	box, pair, kw := c.className("Box", vis), c.className("Pair", vis), visKeyword(vis)
-	fmt.Fprintf(&sb, "class %s<T> {\n  %s T $v;\n  public $inner = null;\n  public function __construct($inner = null) { $this->inner = $inner; }\n  public function take($x) { $this->inner = $x; return $this; }\n  public function set_v(T $x) { $this->v = $x; return 1; }\n", box, kw)
+	fmt.Fprintf(&sb, "class %s<T> {\n  %s T $v;\n  public $inner = null;\n  "+ctor+"\n  public function take($x) { $this->inner = $x; return $this; }\n  public function set_v(T $x) { $this->v = $x; return 1; }\n", box, kw)
 	if ext {
 		sb.WriteString("  public function get_v() { return $this->v; }\n" + methodDecls(ns, map[string]string{"v": "T"}))
 	}
 	sb.WriteString("}\n")
-	fmt.Fprintf(&sb, "class %s<K, V> {\n  %s K $k;\n  %s V $v;\n  public $inner = null;\n  public function __construct($inner = null) { $this->inner = $inner; }\n  public function take($x) { $this->inner = $x; return $this; }\n  public function set_k(K $x) { $this->k = $x; return 1; }\n  public function set_v(V $x) { $this->v = $x; return 1; }\n", pair, kw, kw)
+	fmt.Fprintf(&sb, "class %s<K, V> {\n  %s K $k;\n  %s V $v;\n  public $inner = null;\n  "+ctor+"\n  public function take($x) { $this->inner = $x; return $this; }\n  public function set_k(K $x) { $this->k = $x; return 1; }\n  public function set_v(V $x) { $this->v = $x; return 1; }\n", pair, kw, kw)
 	if ext {
 		sb.WriteString("  public function get_k() { return $this->k; }\n  public function get_v() { return $this->v; }\n" + methodDecls(ns, map[string]string{"k": "K", "v": "V"}))
 	}
@@ -433,22 +480,68 @@ func (c concr) preludeFor(vis string, ext bool, ns []need) string {
 func (c concr) script(seq []Op) string {
 	var sb strings.Builder
 	vis, ext := visOf(seq), extended(seq)
-	sb.WriteString(c.preludeFor(vis, ext, needs(seq)))
+	sites := siteMode(seq)
+	sb.WriteString(c.preludeFor(vis, ext, needs(seq), sites))
 	gens := instGenerics(seq)
+	clsOf := func(o Op) string {
+		g := c.className(o.G, vis)
+		ta := make([]string, len(o.Args))
+		for i, a := range o.Args {
+			ta[i] = c.typeName(a)
+		}
+		switch o.Raw {
+		case "raw":
+			return g
+		case "sub":
+			return "Any" + g
+		}
+		return g + "<" + strings.Join(ta, ", ") + ">"
+	}
+	// one function per distinct `new` text: the body is the only syntactic occurrence of that instantiation
+	siteFn := map[string]string{}
+	if sites {
+		for _, o := range seq {
+			if !o.New && o.Att == "" {
+				continue
+			}
+			t := siteText(o)
+			if _, ok := siteFn[t]; ok {
+				continue
+			}
+			fn := fmt.Sprintf("%smk%d", c.inst, len(siteFn))
+			siteFn[t] = fn
+			if o.Att == "under" || o.Att == "over" {
+				fmt.Fprintf(&sb, "function %s() { return new %s(); }\n", fn, clsOf(o))
+			} else {
+				fmt.Fprintf(&sb, "function %s($a = null) { return new %s($a); }\n", fn, clsOf(o))
+			}
+		}
+	}
 	n := 0
 	for _, o := range seq {
-		if o.New {
-			g := c.className(o.G, vis)
-			ta := make([]string, len(o.Args))
-			for i, a := range o.Args {
-				ta[i] = c.typeName(a)
+		switch o.Att {
+		case "boom":
+			fmt.Fprintf(&sb, "try { $t = %s(\"boom\"); echo \"N\\n\"; } catch (Throwable $e) { echo \"X\\n\"; }\n", siteFn[siteText(o)])
+			continue
+		case "under", "over":
+			m := "k"
+			if o.Att == "over" {
+				m = "v"
 			}
-			cls := g + "<" + strings.Join(ta, ", ") + ">"
-			switch o.Raw {
-			case "raw":
-				cls = g
-			case "sub":
-				cls = "Any" + g
+			fmt.Fprintf(&sb, "try { $t = %s(); $r = \"N:\";\n", siteFn[siteText(o)])
+			for _, k := range attKinds {
+				lit, _ := c.literal(k)
+				fmt.Fprintf(&sb, "  try { $t->%s = %s; $r = $r . \"A\"; } catch (Throwable $e) { $r = $r . \"R\"; }\n", m, lit)
+			}
+			sb.WriteString("  echo $r, \"\\n\"; } catch (Throwable $e) { echo \"X\\n\"; }\n")
+			continue
+		}
+		if o.New {
+			cls := clsOf(o)
+			if o.Site {
+				fmt.Fprintf(&sb, "try { $%s%d = %s(); echo \"N\\n\"; } catch (Throwable $e) { echo \"X\\n\"; }\n", c.inst, n, siteFn[siteText(o)])
+				n++
+				continue
 			}
 			if o.Form != "" {
 				g2 := c.className(o.G2, vis)
@@ -518,10 +611,41 @@ type instance struct {
 func (c concr) expect(seq []Op) (lines []string, ok bool) {
 	var live []*instance
 	vis := visOf(seq)
+	sites := siteMode(seq)
 	for _, o := range seq {
+		if o.Att != "" {
+			// an attempt leaves no live instance. boom: not judged. under / over: the language may refuse the
+			// instantiation; if it hands out an object, the member whose parameter DID get an argument enforces it.
+			if o.New || vis != "" {
+				return nil, false
+			}
+			bound := ""
+			switch {
+			case o.Att == "boom" && len(o.Args) == len(members[o.G]) && len(o.Args) > 0:
+				lines = append(lines, "*")
+				continue
+			case o.Att == "under" && o.G == "Pair" && len(o.Args) == 1, o.Att == "over" && o.G == "Box" && len(o.Args) == 2:
+				bound = o.Args[0]
+			default:
+				return nil, false
+			}
+			vec := "N:"
+			for _, k := range attKinds {
+				if k == bound {
+					vec += "A"
+				} else {
+					vec += "R"
+				}
+			}
+			lines = append(lines, "X|"+vec)
+			continue
+		}
 		if o.New {
 			if o.Vis != vis || visRank(vis) > 2 {
 				return nil, false // one visibility variant per history
+			}
+			if o.Site != sites || o.Site && o.Form != "" {
+				return nil, false // all instantiations of a site history go through sites; nested forms do not
 			}
 			ms := members[o.G]
 			if o.Raw == "" && len(ms) != len(o.Args) || o.Raw != "" && len(o.Args) != 0 {
@@ -635,6 +759,25 @@ func successors(seq []Op, a alpha, out []Op) []Op {
 	if a.Vis != "" {
 		for i := range out {
 			out[i].Vis = a.Vis
+		}
+	}
+	if a.Sites {
+		for i := range out {
+			out[i].Site = true
+		}
+		for _, o := range plain {
+			out = append(out, Op{Att: "boom", G: o.G, Args: o.Args})
+		}
+		for _, g := range a.Generics {
+			for _, t := range a.Types {
+				if g == "Pair" {
+					out = append(out, Op{Att: "under", G: "Pair", Args: []string{t}})
+					continue
+				}
+				for _, t2 := range a.Types {
+					out = append(out, Op{Att: "over", G: "Box", Args: []string{t, t2}})
+				}
+			}
 		}
 	}
 	gens := instGenerics(seq)
